@@ -96,16 +96,25 @@ def gen(rng, tier):
 SUPPORTED = (type(None), bool, int, float, complex, bytes, str, list, tuple, dict, set, frozenset)
 
 
-def only_supported(val, depth=0):
-    if depth > 60:
-        return True
-    t = type(val)
-    if t not in SUPPORTED:
-        return False
-    if t in (list, tuple, set, frozenset):
-        return all(only_supported(x, depth + 1) for x in val)
-    if t is dict:
-        return all(only_supported(k, depth + 1) and only_supported(x, depth + 1) for k, x in val.items())
+def only_supported(val, budget):
+    """-> True / False / None (None: more than `budget` nodes - a length field blew the structure up)"""
+    stack = [val]
+    n = 0
+    while stack:
+        x = stack.pop()
+        n += 1
+        if n > budget:
+            return None
+        t = type(x)
+        if t not in SUPPORTED:
+            return False
+        if t in (list, tuple, set, frozenset):
+            if len(x) > budget:
+                return None
+            stack.extend(x)
+        elif t is dict:
+            stack.extend(x.keys())
+            stack.extend(x.values())
     return True
 
 
@@ -223,16 +232,17 @@ def execute(case, chooser):
                          f"{api}({d!r}) raised {outcome[1]} in {outcome[2]} (damage kind {kind} of dumps({case['value_repr']}))")
             elif outcome[0] == "memory":
                 viol = v("alloc-by-length-field", outcome[1], f"{api}({d!r}) raised MemoryError in {outcome[1]}")
-            elif outcome[0] == "value" and type(outcome[1]) is list and len(outcome[1]) > 16 * len(d) + 1000:
-                # a length field made the loader allocate far more than the input could justify
-                viol = v("alloc-by-length-field", "load_newlist",
-                         f"{api}({d!r}) built a list of {len(outcome[1])} placeholders from {len(d)} bytes")
-                outcome = ("value", None)
             elif outcome[0] == "value":
-                if kind == "trunc":
+                sup = only_supported(outcome[1], 16 * len(d) + 1000)
+                if sup is None:
+                    # a length field made the loader allocate far more than the input could justify
+                    viol = v("alloc-by-length-field", "load_newlist",
+                             f"{api}({d!r}) built a structure of more than {16 * len(d) + 1000} nodes from {len(d)} bytes")
+                elif kind == "trunc":
                     viol = v("prefix-loaded", api, f"strict prefix {d!r} of dumps({case['value_repr']}) loaded as {outcome[1]!r}")
-                elif not only_supported(outcome[1]):
-                    viol = v("unsupported-type-in-result", api, f"{api}({d!r}) -> {outcome[1]!r}")
+                elif sup is False:
+                    viol = v("unsupported-type-in-result", api, f"{api}({d!r}) -> {str(outcome[1])[:200]}")
+                outcome = None
             if viol is not None:
                 cls = (viol["rule"], viol["key"])
                 if cls not in seen:
